@@ -672,6 +672,29 @@ class CompletionMonitor : public Monitor {
   }
 };
 
+
+// ---------------------------------------------------------------------------------------------
+// C20 (bus part): after arbitrary traffic the fixed probe telegram must still be decoded correctly.
+class ProbeMonitor : public Monitor {
+ public:
+  ProbeMonitor(VSink* s, const Bytes& probeMaster) : sink(s), probe(probeMaster) {}
+  VSink* sink;
+  Bytes probe;
+  bool armed = false, seen = false, failed = false;
+  void onProbeStart() override { armed = true; }
+  void onReport(int dir, const Bytes& m, const Bytes&) override {
+    if (!armed || failed) return;
+    if (dir == 0 && m == probe) {
+      if (seen) { failed = true; sink->add("C20/probe-reported-twice", "probe telegram " + ref::hex(probe) + " reported twice"); }
+      seen = true;
+    }
+  }
+  void onEnd() override {
+    if (armed && !seen && !failed) { failed = true; sink->add("C20/probe-not-decoded", "after the explored traffic the valid telegram " + ref::hex(probe) + " following a SYN was not reported"); }
+  }
+  void fingerprint(std::string* o) const override { o->push_back((char)(armed | (seen << 1) | (failed << 2))); }
+};
+
 }  // namespace bw
 
 #endif  // VERIF_BUSMON_H_
